@@ -137,6 +137,7 @@ func (c *wsConn) nextMessage() {
 func (c *wsConn) nextWriter(cb func(io.Writer)) {
 	c.writeLk.Lock()
 	defer c.writeLk.Unlock()
+	vhook(c, "ws.writer.locked", "response")
 
 	wcl, err := c.conn.NextWriter(websocket.TextMessage)
 	if err != nil {
@@ -155,6 +156,7 @@ func (c *wsConn) nextWriter(cb func(io.Writer)) {
 func (c *wsConn) sendRequest(req request) error {
 	c.writeLk.Lock()
 	defer c.writeLk.Unlock()
+	vhook(c, "ws.writer.locked", "request:"+req.Method)
 
 	if debugTrace {
 		log.Debugw("sendRequest", "req", req.Method, "id", req.ID)
@@ -202,6 +204,7 @@ func (c *wsConn) handleOutChans() {
 			}
 
 			registration := val.Interface().(outChanReg)
+			vhook(c, "ws.chan.reg", registration.chID)
 
 			caseToID = append(caseToID, registration.chID)
 			cases = append(cases, reflect.SelectCase{
@@ -240,6 +243,7 @@ func (c *wsConn) handleOutChans() {
 			// Output channel closed, cleanup, and tell remote that this happened
 
 			id := caseToID[chosen-internal]
+			vhook(c, "ws.chan.close", id)
 
 			n := len(cases) - 1
 			if n > 0 {
@@ -268,6 +272,7 @@ func (c *wsConn) handleOutChans() {
 		}
 
 		// forward message
+		vhook(c, "ws.chan.fwd", caseToID[chosen-internal])
 		rp, err := json.Marshal([]param{{v: reflect.ValueOf(caseToID[chosen-internal])}, {v: val}})
 		if err != nil {
 			log.Errorw("marshaling params for sendRequest failed", "err", err)
@@ -319,6 +324,7 @@ func (c *wsConn) handleChanOut(ch reflect.Value, req interface{}) error {
 //	contexts correctly (cancelling when async functions are no longer is use)
 func (c *wsConn) handleCtxAsync(actx context.Context, id interface{}) {
 	<-actx.Done()
+	vhook(c, "ws.subcancel.before", id)
 
 	rp, err := json.Marshal([]param{{v: reflect.ValueOf(id)}})
 	if err != nil {
@@ -353,6 +359,7 @@ func (c *wsConn) cancelCtx(req frame) {
 		return
 	}
 
+	vhook(c, "ws.cancel.recv", id)
 	c.handlingLk.Lock()
 	defer c.handlingLk.Unlock()
 
@@ -434,6 +441,7 @@ func (c *wsConn) handleResponse(frame frame) {
 		log.Error("client got unknown ID in response")
 		return
 	}
+	vhook(c, "ws.resp.lookup", frame.ID)
 
 	if req.retCh != nil && frame.Result != nil {
 		// output is channel
@@ -452,12 +460,14 @@ func (c *wsConn) handleResponse(frame frame) {
 		go c.handleCtxAsync(chanCtx, frame.ID)
 	}
 
+	vhook(c, "ws.resp.deliver.before", frame.ID)
 	req.ready <- clientResponse{
 		Jsonrpc: frame.Jsonrpc,
 		Result:  frame.Result,
 		ID:      frame.ID,
 		Error:   frame.Error,
 	}
+	vhook(c, "ws.resp.deliver.after", frame.ID)
 	c.inflightLk.Lock()
 	delete(c.inflight, frame.ID)
 	c.inflightLk.Unlock()
@@ -505,6 +515,7 @@ func (c *wsConn) handleCall(ctx context.Context, frame frame) {
 		}
 	}
 
+	vhook(c, "ws.call.dispatch", frame.ID)
 	go c.handler.handle(ctx, req, nextWriter, rpcError, done, c.handleChanOut)
 }
 
@@ -558,6 +569,7 @@ func (c *wsConn) closeChans() {
 
 	for chid := range c.chanHandlers {
 		hnd := c.chanHandlers[chid]
+		vhook(c, "ws.closechans.each", chid)
 
 		hnd.lk.Lock()
 
@@ -600,6 +612,7 @@ func (c *wsConn) setupPings() func() {
 			select {
 			case <-time.After(c.pingInterval):
 				c.writeLk.Lock()
+				vhook(c, "ws.writer.locked", "ping")
 				if err := c.conn.WriteMessage(websocket.PingMessage, []byte{}); err != nil {
 					log.Errorf("sending ping message: %+v", err)
 				}
@@ -625,8 +638,11 @@ func (c *wsConn) tryReconnect(ctx context.Context) bool {
 	}
 
 	// connection dropped unexpectedly, do our best to recover it
+	vhook(c, "ws.reconn.begin", nil)
 	c.closeInFlight()
+	vhook(c, "ws.reconn.inflightClosed", nil)
 	c.closeChans()
+	vhook(c, "ws.reconn.chansClosed", nil)
 	c.incoming = make(chan io.Reader) // listen again for responses
 	go func() {
 		c.stopPings()
@@ -639,6 +655,7 @@ func (c *wsConn) tryReconnect(ctx context.Context) bool {
 				return
 			}
 			var err error
+			vhook(c, "ws.reconn.dial", attempts)
 			if conn, err = c.connFactory(); err != nil {
 				log.Debugw("websocket connection retry failed", "error", err)
 			}
@@ -650,7 +667,9 @@ func (c *wsConn) tryReconnect(ctx context.Context) bool {
 			attempts++
 		}
 
+		vhook(c, "ws.reconn.swap.before", attempts)
 		c.writeLk.Lock()
+		vhook(c, "ws.writer.locked", "swap")
 		c.conn = conn
 		c.errLk.Lock()
 		c.incomingErr = nil
@@ -659,6 +678,7 @@ func (c *wsConn) tryReconnect(ctx context.Context) bool {
 		c.stopPings = c.setupPings()
 
 		c.writeLk.Unlock()
+		vhook(c, "ws.reconn.swap.after", attempts)
 
 		go c.nextMessage()
 	}()
@@ -679,6 +699,7 @@ func (c *wsConn) readFrame(ctx context.Context, r io.Reader) {
 		return
 	}
 
+	vhook(c, "ws.read.frame", len(buf))
 	c.frameExecQueue <- buf
 	if len(c.frameExecQueue) > 2*cap(c.frameExecQueue)/3 { // warn at 2/3 capacity
 		log.Warnw("frame executor queue is backlogged", "queued", len(c.frameExecQueue), "cap", cap(c.frameExecQueue))
@@ -709,6 +730,7 @@ func (c *wsConn) frameExecutor(ctx context.Context) {
 				continue
 			}
 
+			vhook(c, "ws.exec.frame", frame.Method)
 			c.handleFrame(ctx, frame)
 		}
 	}
@@ -729,6 +751,7 @@ func (c *wsConn) handleWsConn(ctx context.Context) {
 	c.pongs = make(chan struct{}, 1)
 
 	c.registerCh = make(chan outChanReg)
+	defer vhook(c, "ws.exit.end", nil)
 	defer close(c.exiting)
 
 	// ////
@@ -737,6 +760,7 @@ func (c *wsConn) handleWsConn(ctx context.Context) {
 	//  on all calls we handle
 	defer c.closeInFlight()
 	defer c.closeChans()
+	defer vhook(c, "ws.exit.begin", nil)
 
 	// setup pings
 
@@ -804,6 +828,7 @@ func (c *wsConn) handleWsConn(ctx context.Context) {
 			return
 		case req := <-c.requests:
 			action = fmt.Sprintf("send-request(%s,%v)", req.req.Method, req.req.ID)
+			vhook(c, "ws.req.accepted", req.req.ID)
 
 			c.writeLk.Lock()
 			if req.req.ID != nil { // non-notification
@@ -827,7 +852,9 @@ func (c *wsConn) handleWsConn(ctx context.Context) {
 				c.inflightLk.Unlock()
 			}
 			c.writeLk.Unlock()
+			vhook(c, "ws.req.registered", req.req.ID)
 			serr := c.sendRequest(req.req)
+			vhook(c, "ws.req.written", req.req.ID)
 			if serr != nil {
 				log.Errorf("sendReqest failed (Handle me): %s", serr)
 			}
@@ -854,7 +881,9 @@ func (c *wsConn) handleWsConn(ctx context.Context) {
 				continue
 			}
 
+			vhook(c, "ws.timeout.fired", nil)
 			c.writeLk.Lock()
+			vhook(c, "ws.writer.locked", "timeout-close")
 			if err := c.conn.Close(); err != nil {
 				log.Warnw("timed-out websocket close error", "error", err)
 			}
@@ -867,7 +896,9 @@ func (c *wsConn) handleWsConn(ctx context.Context) {
 			// The client performs the reconnect operation, and if it exits it cannot start a handleWsConn again, so it does not need to exit
 			continue
 		case <-c.stop:
+			vhook(c, "ws.stop.recv", nil)
 			c.writeLk.Lock()
+			vhook(c, "ws.writer.locked", "stop-close")
 			cmsg := websocket.FormatCloseMessage(websocket.CloseNormalClosure, "")
 			if err := c.conn.WriteMessage(websocket.CloseMessage, cmsg); err != nil {
 				log.Warn("failed to write close message: ", err)
